@@ -11,10 +11,10 @@ class C08(core.Check):
     design_ref = "DESIGN.md §5 C08"
     technique = ("Lean 4 theorems over a model of Tymer and MonoTimer (any op sequence, any clock-reading sequence) + regenerated class defaults "
                  "+ differential run of the compiled model against the real classes under a scripted tymist / scripted time.time()")
-    level_text = "see notes/Timer.md"
-    level_note = ""
+    level_text = ("Lean theorems, unconditional: tymer_reports_exactly (for every pair of tymists, constructor call and EVERY sequence of tyme assignments incl. rewinds, ticks, start/restart with or without duration/start, re-winding, each reported start/duration/elapsed/remaining/expired equals the reference timer's now-start, start+duration-now, now>=start+duration; refinement proof), tymer_restart_at_previous_stop, tymer_restarts_lossless (k restarts amid arbitrary tyme changes keep the period grid start0+k*duration), mono_elapsed_never_decreases and mono_expired_never_reverts (every timer state, retro or not, every clock, every reading sequence), mono_measures_exactly (a retro MonoTimer started at the clock, after any readings and restarts, reports elapsed = sum of non-negative increments - k*duration, remaining, expired accordingly), mono_start_forgets_the_past. Model = repaired code (2 fix: commits). Tied to the classes by a differential run on op lists under a scripted tymist / scripted time.time(); class defaults re-extracted on every run. Not modelled: the half-assigned state after Tymer.start() raises TypeError on an unwound tymer (trace stops there on both sides).")
+    level_note = ("Trusted: Lean kernel + propext/Classical.choice/Quot.sound; the sampled correspondence (float arithmetic as Int on integers x 2^-10 s); MonoTimer with an explicit start value is covered by the monotonicity theorems and the correspondence only (no exactness claim: the code aliases ._last to the given start, pinned by the tree's test). Time over Int only.")
     quick_n = 3000
-    thorough_n = 60000
+    thorough_n = 150000
     rule = ("cases: (tymer ...) two Tymists, a Tymer wound to one/none, op list of tyme assignments (incl. rewinds), ticks, start/restart with and "
             "without duration/start, wind; (mono ...) MonoTimer under a scripted time.time() (steady, stalled, stepped back at every position incl. "
             "inside the constructor and exactly at start()), ops elapsed/remaining/expired/latest/duration/start/restart.  All values integers x 2^-10 s. "
